@@ -188,7 +188,18 @@ pub fn g_config(v: &Value, wire_url: &str) -> String {
 
 // ---- random generators for these types ----
 const WORDS: [&str; 14] = ["", "a", "stable", "beta-channel", "x y", "q\"uote", "back\\slash", "tab\there", "new\nline", "ünï", "日本", "\u{1}ctl", "1.2.3", "😀"];
+/// Text whose multi-byte characters straddle a round byte offset (8, 16, ... 4096): code that cuts a string at a fixed
+/// byte position (for a log line, an abbreviation, a buffer) meets a character boundary only by luck.
+pub fn boundary_text(rng: &mut Rng, max: usize) -> String {
+    let sizes: Vec<usize> = [8usize, 16, 32, 64, 100, 128, 255, 256, 257, 512, 1000, 1024, 4096].iter().cloned().filter(|n| *n <= max).collect();
+    let n = *rng.pick(&sizes);
+    let mut s: String = (0..rng.below(4)).map(|_| 'a').collect();
+    let ch = *rng.pick(&['é', '版', '😀']);
+    while s.len() < n + 8 { s.push(ch); }
+    s
+}
 pub fn rand_text(rng: &mut Rng) -> String {
+    if rng.chance(1, 16) { return boundary_text(rng, 256); }
     match rng.below(5) {
         0 => WORDS[rng.below(WORDS.len() as u64) as usize].to_string(),
         1 => format!("{}{}", rng.pick(&WORDS), rng.below(100)),
@@ -196,6 +207,28 @@ pub fn rand_text(rng: &mut Rng) -> String {
         3 => (0..rng.below(8)).map(|_| char::from_u32(32 + rng.below(95) as u32).unwrap()).collect(),
         _ => (0..rng.below(6)).map(|_| *rng.pick(&['"', '\\', '/', '\u{8}', '\u{c}', '\n', '\r', '\t', '\u{0}', '\u{1f}', '\u{7f}', 'é', '\u{2028}', 'z'])).collect(),
     }
+}
+/// A service URL from a small grammar: scheme, authority, path segments (empty ones, dots, escapes, trailing slash) and an
+/// optional query of assorted parameters (empty, bare flags, values holding slashes and URLs, trailing separators).
+pub fn rand_url(rng: &mut Rng) -> String {
+    let scheme = *rng.pick(&["http", "https"]);
+    let auth = *rng.pick(&["h", "example.com", "host.example:8443", "user@h", "[::1]:8080", "127.0.0.1", "a.b.c:1"]);
+    let nseg = rng.below(5);
+    let mut path = String::new();
+    for _ in 0..nseg {
+        path.push('/');
+        path.push_str(*rng.pick(&["a", "p", "service", "update2", "json", "v1.2", "%20", "~x", "a;b", "a=b", "", ".", "x:y", "@"]));
+    }
+    if rng.chance(1, 2) { path.push('/'); }
+    let mut url = format!("{}://{}{}", scheme, auth, path);
+    if rng.chance(1, 2) {
+        url.push('?');
+        let n = rng.below(4);
+        let ps: Vec<&str> = (0..n).map(|_| *rng.pick(&["a=b", "x=/", "flag", "k=", "=v", "u=http://x/y/", "q=a/b/", "cup2key=1:00", "%2F=%2f", "/", "a=b/", "?", "p=q?r"])).collect();
+        url.push_str(&ps.join("&"));
+        match rng.below(6) { 0 => url.push('/'), 1 => url.push('&'), _ => {} }
+    }
+    url
 }
 pub fn rand_ident(rng: &mut Rng) -> String {
     let n = 1 + rng.below(10);
